@@ -265,8 +265,13 @@ func (ss *StdSignature) Unmarshal(data []byte) error {
 }
 
 func (ss StdSignature) ToProto() ProtoStdSignature {
+	// the public key is optional (the ante handler falls back to the account's key, FromProto accepts its absence)
+	var pk []byte
+	if ss.PublicKey != nil {
+		pk = ss.PublicKey.RawBytes()
+	}
 	return ProtoStdSignature{
-		PublicKey: ss.PublicKey.RawBytes(),
+		PublicKey: pk,
 		Signature: ss.Signature,
 	}
 }
